@@ -17,9 +17,15 @@ struct Tracked {
 	int v;
 	Tracked() noexcept(false);
 	Tracked(Tracked const&) noexcept(false);
+#ifdef TRACKED_NOTHROW_MOVE
+	Tracked(Tracked&&) noexcept;                       // like std::string / std::vector: moves cannot throw, copies can
+	Tracked& operator=(Tracked const&) noexcept(false);
+	Tracked& operator=(Tracked&&) noexcept;
+#else
 	Tracked(Tracked&&) noexcept(false);
 	Tracked& operator=(Tracked const&) noexcept(false);
 	Tracked& operator=(Tracked&&) noexcept(false);
+#endif
 	~Tracked();
 	bool operator==(Tracked const&) const;
 	bool operator<(Tracked const&) const;
@@ -115,6 +121,8 @@ def ops(D):
     add("value_from_iter", "void* m, It it", "new(m) Arr(*it);", {0: "ctor"}, "ctor", "C03")
     add("array_paren_assign", "Arr& a, Arr const& b", "a() = b();", {0: "live", 1: "live"}, "view")
     add("ref_assign_ref", "Ref& r, Ref const& q", "r = q;", {0: "view", 1: "view"}, "view")
+    add("ref_move_assign", "Ref& r, Ref& q", "r = std::move(q);", {0: "view", 1: "view"}, "view")
+    add("rvalue_ref_move_assign", "Ref& r, Ref& q", "std::move(r) = std::move(q);", {0: "view", 1: "view"}, "view")
     add("ref_assign_constptr_ref", "Ref& r, multi::array_ref<Tracked, DD, Tracked const*> const& q", "r = q;", {0: "view", 1: "view"}, "view")
     add("rvalue_ref_assign_constptr_ref", "Ref& r, multi::array_ref<Tracked, DD, Tracked const*> const& q", "std::move(r) = q;", {0: "view", 1: "view"}, "view")
     if D >= 2:
